@@ -352,6 +352,8 @@ impl Workload {
                 .variant(FeWorkIdentifier::GlyphOrder)
                 .build()
                 .into();
+            #[cfg(fontc_verif)]
+            verif_hooks::rewrite(&be_id, &be_job.read_access);
             return;
         }
 
